@@ -239,11 +239,31 @@ def deviants : String :=
     !Policy.Uniform Cherab.Gen.OpenAdasPolicy.nullSigs a).map (·.name)
   let grd := (Cherab.Gen.OpenAdasPolicy.rateClasses.filter fun c =>
     !c.isNull && !(c.evalParams.all fun p => !isDTE p || c.guarded.contains p)).map (·.name)
-  "policy:" ++ ",".intercalate pol ++ " guards:" ++ ",".intercalate grd
+  let clm := (Cherab.Gen.OpenAdasPolicy.rateClasses.filter fun c =>
+    !c.chainOk || !(c.chain.all fun t => t.2.2)).map (·.name)
+  "policy:" ++ ",".intercalate pol ++ " guards:" ++ ",".intercalate grd ++ " clamps:" ++ ",".intercalate clm
+
+def pOptF (s : String) : Option Float := if s == "VE" then none else some (pF s)
+
+/-- `cxf <energy> <temperature> <density> <log-rate of _eb | VE> <factor | VE>*` : BeamCXPEC.evaluate on raysect's own
+interpolator values; guard and clamp flags come from the generated class table -/
+def runChain (ts : List String) : String :=
+  match ts with
+  | en :: t :: d :: l :: fs =>
+    let clamps := match Cherab.Gen.OpenAdasPolicy.rateClasses.find? (·.name == "BeamCXPEC") with
+      | some c => c.chain.map (·.2.2)
+      | none => []
+    let en := pF en
+    if (guardTD && (en ≤ 0 || pF t ≤ 0 || pF d ≤ 0)) || en ≤ 0 then showOut (Out.val (0.0 : Float))
+    else match pOptF l with
+      | none => "VE"
+      | some l => showOut (cxChainF (Float.pow 10.0 l) ((fs.map pOptF).zip (clamps ++ List.replicate fs.length true)))
+  | _ => "bad-op"
 
 def step (ts : List String) : String :=
   match ts with
   | ["deviants"] => deviants
+  | "cxf" :: rest => runChain rest
   | "rate" :: rest => runRate rest
   | "wl" :: rest => runWavelength rest
   | "pol" :: rest => runPolicy rest
